@@ -93,6 +93,8 @@ Definition op_clauses (c : gconf) (orig before : list rule) (op : gop) (o : gobs
   | OEnsure s =>
     match is_weight_step s with
     | Some w => [ clause "C13_exact_split" (exact_split c w before after);
+                  (* C03: once the provider reports the step as routed (second call: "verified"), the stored route carries exactly the step's share *)
+                  clause "C03_routed_means_exact(gateway provider)" (negb (go_probe_flag o) || exact_split c w before (go_probe_rules o));
                   clause "C13_unrelated_rules_untouched" (unrelated_untouched c before after);
                   clause "C13_originals_kept" (user_rules_kept c orig after) ]
     | None => match s_matches s with
@@ -104,6 +106,7 @@ Definition op_clauses (c : gconf) (orig before : list rule) (op : gop) (o : gobs
     end
   | OFinalise =>
     [ clause "C13_finalise_removes_canary" (no_canary_left c after && nothing_generated orig after);
+      clause "C05_gateway_route_carries_no_canary_reference_after_the_exit" (no_canary_left c after && nothing_generated orig after);
       clause_known "C13_finalise_keeps_user_rules" "C13:F4" (f4_region orig) (user_rules_kept c orig after) ]
   end).
 
